@@ -138,3 +138,47 @@ example : ¬ Gam ([3, 5].map (Bio.ttDen 2)) [some true, some true] = [some true,
   decide
 
 end C02
+
+namespace C02
+
+/-- the conditions' handles of `from_parser` on written formulas denote the formulas (list form of
+`buildNative_correct`) -/
+theorem buildNative_fns (fms : List Fm) (hn : fms.length ≤ VBOT) (hv : ∀ f ∈ fms, f.atomsOK) :
+    WF (buildNative fms.length fms).1 ∧ (buildNative fms.length fms).2.length = fms.length ∧
+    (∀ t ∈ (buildNative fms.length fms).2, t < (buildNative fms.length fms).1.nodes.size) ∧
+    (buildNative fms.length fms).2.map (eval (buildNative fms.length fms).1) = fms.map Fm.sem := by
+  obtain ⟨w, hl, hok⟩ := buildNative_correct fms.length fms hn hv
+  refine ⟨w, hl, ?_, ?_⟩
+  · intro t ht
+    obtain ⟨i, hi, rfl⟩ := List.getElem_of_mem ht
+    have hi' : i < fms.length := by rw [← hl]; exact hi
+    exact (hok i _ fms[i] (List.getElem?_eq_getElem hi) (List.getElem?_eq_getElem hi')).1
+  · apply List.ext_getElem
+    · simp [hl]
+    · intro i h1 h2
+      simp only [List.getElem_map]
+      have hi : i < (buildNative fms.length fms).2.length := by simpa using h1
+      have hi' : i < fms.length := by simpa using h2
+      funext σ
+      exact (hok i _ fms[i] (List.getElem?_eq_getElem hi) (List.getElem?_eq_getElem hi')).2 σ
+
+/-- **the oracle beyond truth-table size.** For frameworks of ANY number of statements, written as
+formulas: the complete enumeration of the model on the freshly compiled store lists - without
+duplicates, grounded first - exactly the fixpoints of the consequence operator of the WRITTEN
+formulas. The driver uses this run (`Drv.modelAnswer`) as the property oracle where the
+brute-force specification cannot go (n > 7). -/
+theorem complete_exact_from_formulas (fms : List Fm) (hn : fms.length ≤ VBOT) (hv : ∀ f ∈ fms, f.atomsOK) :
+    let b := buildNative fms.length fms
+    let r := completeAll b.1 fms.length b.2
+    (r.2.2.map (fun v => v.map storeIsConst)).Nodup ∧
+    (∀ w : I3, w ∈ r.2.2.map (fun v => v.map storeIsConst) ↔ (w.length = fms.length ∧ Gam (fms.map Fm.sem) w = w)) ∧
+    r.2.2.head? = some r.2.1 := by
+  obtain ⟨w, hl, hlt, hf⟩ := buildNative_fns fms hn hv
+  have h := complete_exact (buildNative fms.length fms).1 fms.length (buildNative fms.length fms).2 w hl hlt
+  rw [hf] at h
+  exact h
+
+example : ([Fm.atom 1, Fm.atom 0] : List Fm).length ≤ VBOT ∧ ∀ f ∈ ([Fm.atom 1, Fm.atom 0] : List Fm), f.atomsOK := by
+  simp [VBOT, Fm.atomsOK]
+
+end C02
